@@ -1,7 +1,12 @@
 package state
 
 import (
+	"context"
+
 	"github.com/ProtonMail/gluon/imap"
+	"github.com/ProtonMail/gluon/imap/command"
+	"github.com/ProtonMail/gluon/internal/response"
+	"github.com/ProtonMail/gluon/internal/verifdb"
 	"github.com/ProtonMail/gluon/limits"
 )
 
@@ -47,5 +52,226 @@ func VerifC04Recreate() {
 				maxUIDV[b.Name] = b.UIDValidity
 			}
 		}
+	}
+}
+
+// ---- UID histories ----
+
+type c4Ghost struct {
+	ever    map[imap.UID]imap.InternalMessageID // every UID the mailbox ever showed, with the message it denoted
+	maxEver imap.UID
+	next    imap.UID // last UIDNEXT reported
+}
+
+func c4NewGhost(b *verifdb.Box) *c4Ghost {
+	g := &c4Ghost{ever: map[imap.UID]imap.InternalMessageID{}, maxEver: b.LastUID}
+	for _, r := range b.Rows {
+		g.ever[r.UID] = r.Msg
+	}
+	return g
+}
+
+// observe compares the mailbox with everything it ever showed: a UID keeps denoting the same message, a UID not
+// seen before is above every UID ever assigned (also the expunged ones), rows ascend.
+func (g *c4Ghost) observe(b *verifdb.Box, name string) {
+	prev := imap.UID(0)
+	newMax := g.maxEver
+	for _, r := range b.Rows {
+		vsymAssert(r.UID > prev, "UIDs strictly ascending in mailbox "+name)
+		prev = r.UID
+		if owner, seen := g.ever[r.UID]; seen {
+			vsymAssert(owner == r.Msg, "a UID denotes the same message for ever in mailbox "+name)
+		} else {
+			vsymAssert(r.UID > g.maxEver, "a newly assigned UID is above every UID ever assigned in mailbox "+name)
+			g.ever[r.UID] = r.Msg
+			if r.UID > newMax {
+				newMax = r.UID
+			}
+		}
+	}
+	g.maxEver = newMax
+}
+
+func (g *c4Ghost) uidNext(ctx context.Context, m *Mailbox, name string) {
+	next, err := m.UIDNext(ctx)
+	if err != nil {
+		return
+	}
+	vsymAssert(next > g.maxEver, "UIDNEXT is above every UID ever assigned in mailbox "+name)
+	vsymAssert(next >= g.next, "UIDNEXT never decreases in mailbox "+name)
+	g.next = next
+}
+
+func c4RowByUID(b *verifdb.Box, uid imap.UID) (imap.InternalMessageID, bool) {
+	for _, r := range b.Rows {
+		if r.UID == uid {
+			return r.Msg, true
+		}
+	}
+	return imap.InternalMessageID{}, false
+}
+
+// c4Set: "x", "1:*" or "x,y" (x != y, written in either order) over a view of n messages
+func c4Set(n int) ([]command.SeqRange, int) {
+	switch vsymChoice("set", 3) {
+	case 1:
+		return []command.SeqRange{{Begin: 1, End: 0}}, n
+	case 2:
+		if n < 2 {
+			vsymAssume(false)
+		}
+		x := 1 + vsymChoice("x", n)
+		y := 1 + vsymChoice("y", n)
+		if x == y {
+			vsymAssume(false)
+		}
+		return []command.SeqRange{{Begin: command.SeqNum(x), End: command.SeqNum(x)}, {Begin: command.SeqNum(y), End: command.SeqNum(y)}}, 2
+	}
+	x := 1 + vsymChoice("x", n)
+	return []command.SeqRange{{Begin: command.SeqNum(x), End: command.SeqNum(x)}}, 1
+}
+
+// c4CheckCopyUID: what a client concludes from [COPYUID v src dst] (RFC 4315: n-th source UID -> n-th destination
+// UID) must be where the messages are found.
+func c4CheckCopyUID(item response.Item, want int, srcBefore map[imap.UID]imap.InternalMessageID, dst *verifdb.Box, dstBefore map[imap.UID]imap.InternalMessageID) {
+	v, src, dstUIDs, ok := response.VerifDecodeCopyUID(item)
+	vsymAssert(ok, "a COPY/MOVE that copied messages announces COPYUID")
+	if !ok {
+		return
+	}
+	vsymCover("copyuid-checked")
+	vsymAssert(v == dst.UIDValidity, "COPYUID carries the destination's UIDVALIDITY")
+	vsymAssert(len(src) == want && len(dstUIDs) == want, "COPYUID lists as many source and destination UIDs as messages were copied")
+	if len(src) != len(dstUIDs) {
+		return
+	}
+	for i := range src {
+		msg, had := srcBefore[src[i]]
+		vsymAssert(had, "a COPYUID source UID names a message of the source mailbox")
+		found, is := c4RowByUID(dst, dstUIDs[i])
+		vsymAssert(is, "a COPYUID destination UID names a message of the destination mailbox")
+		if had && is {
+			vsymAssert(found == msg, "the message announced under a COPYUID destination UID is the one found under it")
+		}
+		_, old := dstBefore[dstUIDs[i]]
+		vsymAssert(!old, "a COPYUID destination UID was not in use before the command")
+	}
+}
+
+func c4Snapshot(b *verifdb.Box) map[imap.UID]imap.InternalMessageID {
+	out := map[imap.UID]imap.InternalMessageID{}
+	for _, r := range b.Rows {
+		out[r.UID] = r.Msg
+	}
+	return out
+}
+
+// VerifC04History: histories of APPEND / COPY / MOVE (between two mailboxes and onto the same mailbox) / EXPUNGE of
+// the highest UID, some of them failing remotely, on the relational model (which assigns UIDs like AUTOINCREMENT:
+// one above the highest ever assigned).  After every command: a UID keeps denoting one message, new UIDs are above
+// everything ever assigned, UIDNEXT is above them and never decreases, APPENDUID / COPYUID name the UIDs the
+// messages are found under.
+func VerifC04History() {
+	k := vsymParam("k")
+	nA := vsymParam("nA")
+	nB := vsymParam("nB")
+	w := verifNewWorld(limits.DefaultLimits())
+	w.conn.faultBudget = vsymParam("faults")
+	a := w.db.AddBox("A", "mb-A", 2)
+	b := w.db.AddBox("B", "mb-B", 3)
+	for i := 0; i < nA; i++ {
+		w.addMessage(a, imap.UID(i+1))
+	}
+	for i := 0; i < nB; i++ {
+		w.addMessage(b, imap.UID(i+1))
+	}
+	// B's highest UIDs may have been expunged before the history starts
+	b.LastUID = imap.UID(nB + vsymChoice("aheadB", 3))
+	sa := w.newState(1)
+	sb := w.newState(2)
+	var mboxA, mboxB *Mailbox
+	if err := sa.Select(ctxFor(sa), "A", func(m *Mailbox) error { mboxA = m; return nil }); err != nil {
+		panic(err)
+	}
+	if err := sb.Select(ctxFor(sb), "B", func(m *Mailbox) error { mboxB = m; return nil }); err != nil {
+		panic(err)
+	}
+	ga, gb := c4NewGhost(a), c4NewGhost(b)
+	ga.uidNext(ctxFor(sa), mboxA, "A")
+	gb.uidNext(ctxFor(sb), mboxB, "B")
+	for step := 0; step < k; step++ {
+		// both sessions are up to date before a command (stale views are C03's subject)
+		w.deliverAll(0)
+		w.deliverAll(1)
+		if _, err := sa.flushResponses(ctxFor(sa), true); err != nil {
+			panic(err)
+		}
+		if _, err := sb.flushResponses(ctxFor(sb), true); err != nil {
+			panic(err)
+		}
+		beforeA, beforeB := c4Snapshot(a), c4Snapshot(b)
+		viewA, viewB := len(sa.snap.messages.msg), len(sb.snap.messages.msg)
+		switch vsymChoice("ev", 6) {
+		case 0: // APPEND into B by the session that has A selected
+			var uid imap.UID
+			err := sa.AppendOnlyMailbox(ctxFor(sa), "B", func(m AppendOnlyMailbox, sel bool) error {
+				var e error
+				uid, e = m.Append(ctxFor(sa), []byte(verifLiteral), imap.NewFlagSet(), time0())
+				return e
+			})
+			if err == nil {
+				vsymCover("append-ok")
+				_, is := c4RowByUID(b, uid)
+				vsymAssert(is, "the message is found under the UID announced by APPENDUID")
+				_, old := beforeB[uid]
+				vsymAssert(!old, "APPENDUID is a UID that was not in use before")
+			}
+		case 1, 2: // COPY / MOVE A -> B
+			if viewA == 0 {
+				vsymAssume(false)
+			}
+			set, want := c4Set(viewA)
+			var item response.Item
+			var err error
+			if vsymChoice("move", 2) == 1 {
+				item, err = mboxA.Move(ctxFor(sa), set, "B")
+			} else {
+				item, err = mboxA.Copy(ctxFor(sa), set, "B")
+			}
+			if err == nil {
+				c4CheckCopyUID(item, want, beforeA, b, beforeB)
+			}
+		case 3: // the session on B deletes and expunges its highest message
+			if viewB == 0 {
+				vsymAssume(false)
+			}
+			if err := mboxB.Store(ctxFor(sb), []command.SeqRange{{Begin: 0, End: 0}}, command.StoreActionAddFlags, imap.NewFlagSet(imap.FlagDeleted)); err == nil {
+				if mboxB.Expunge(ctxFor(sb), nil) == nil {
+					vsymCover("expunged-highest")
+				}
+			}
+		case 4: // COPY onto the same mailbox (fresh UIDs)
+			if viewB == 0 {
+				vsymAssume(false)
+			}
+			set, want := c4Set(viewB)
+			item, err := mboxB.Copy(ctxFor(sb), set, "B")
+			if err == nil {
+				c4CheckCopyUID(item, want, beforeB, b, beforeB)
+			}
+		case 5: // MOVE B -> A
+			if viewB == 0 {
+				vsymAssume(false)
+			}
+			set, want := c4Set(viewB)
+			item, err := mboxB.Move(ctxFor(sb), set, "A")
+			if err == nil {
+				c4CheckCopyUID(item, want, beforeB, a, beforeA)
+			}
+		}
+		ga.observe(a, "A")
+		gb.observe(b, "B")
+		ga.uidNext(ctxFor(sa), mboxA, "A")
+		gb.uidNext(ctxFor(sb), mboxB, "B")
 	}
 }
